@@ -8,6 +8,7 @@ import (
 	"reflect"
 	"strconv"
 	"strings"
+	"sync"
 
 	"github.com/grailbio/bigslice/frame"
 )
@@ -41,6 +42,13 @@ type cState struct {
 
 var cKey = frame.FreshKey()
 
+// cExpect maps the address of the first element of a []C column that is about
+// to be written to the index of its batch in its stream. It lets the codec
+// verify frame.Session's contract ("State returns true the first time the key is
+// encountered in the session") from the outside: a session that loses or shares
+// state shows up as an encode error even if encoder and decoder lose it alike.
+var cExpect sync.Map
+
 func init() {
 	frame.RegisterOps(func(s []C) frame.Ops {
 		return frame.Ops{
@@ -48,6 +56,11 @@ func init() {
 				var st *cState
 				if e.State(cKey, &st) {
 					*st = cState{}
+				}
+				if len(s) > 0 {
+					if want, ok := cExpect.Load(&s[0]); ok && want.(int) != st.batches {
+						return fmt.Errorf("C codec: encoder session state says this is batch %d of the stream, it is batch %d", st.batches, want.(int))
+					}
 				}
 				p := make([]byte, 1+4*(j-i))
 				p[0] = byte(st.batches)
